@@ -191,3 +191,28 @@ Fixpoint text_ordered (o : obj) : bool :=
        match l with [] => true | (_, v) :: r => text_ordered v && go r end) l
   | _ => true
   end.
+
+(* ---- the scanner's nesting counter ----
+   scanner.go keeps the depth in a field: ReadArray and ReadDict refuse to start when
+   s.nestDepth >= maxScannerNestDepth, increment it, and a deferred function decrements it on every
+   way out.  In read_object/read_array/read_dict above the depth is an argument, which is the
+   same thing only if the counter is back at its old value after every value.  [events]: the
+   entries and exits the scanner goes through while reading the text of a value; [run_counter]:
+   the field under the discipline just described. *)
+Inductive nest_ev := NEnter | NExit.
+Fixpoint events (o : obj) : list nest_ev :=
+  match o with
+  | OArr l => NEnter :: concat (map events l) ++ [NExit]
+  | ODict l =>
+    NEnter ::
+    (fix go (l : list (bytes * obj)) : list nest_ev :=
+       match l with [] => [] | (_, v) :: r => events v ++ go r end) l ++ [NExit]
+  | ONilDict => [NEnter; NExit]      (* written as "<<>>" *)
+  | _ => []
+  end.
+Fixpoint run_counter (L : limits) (evs : list nest_ev) (d : N) : option N :=
+  match evs with
+  | [] => Some d
+  | NEnter :: r => if max_depth L <=? d then None else run_counter L r (d + 1)
+  | NExit :: r => run_counter L r (d - 1)
+  end.
